@@ -90,7 +90,7 @@ TBlock == /\ l <= Len(Trace) /\ Trace[l].ev = "Block" /\ l' = l + 1
                  b == Broken(pre, e)
              IN /\ heads' = [r \in Names(e.obs) |-> <<e.obs[r].height, e.obs[r].hash>>]
                 /\ bad' = bad \cup b
-                /\ Report(b \ bad, l)
+                /\ Report(b, l)
 
 \* a fork switch performed by every replica: heads move back together
 TReset == /\ l <= Len(Trace) /\ Trace[l].ev = "Reset" /\ l' = l + 1
@@ -100,7 +100,7 @@ TReset == /\ l <= Len(Trace) /\ Trace[l].ev = "Reset" /\ l' = l + 1
 TCatchup == /\ l <= Len(Trace) /\ Trace[l].ev = "Catchup" /\ l' = l + 1
             /\ LET b == IF SyncedAgrees(Trace[l], heads) THEN {} ELSE {"SyncedAgrees"} IN
                /\ bad' = bad \cup b
-               /\ Report(b \ bad, l)
+               /\ Report(b, l)
             /\ UNCHANGED heads
 
 TOther == /\ l <= Len(Trace) /\ Trace[l].ev \notin {"Genesis", "Block", "Reset", "Catchup"} /\ l' = l + 1 /\ UNCHANGED <<heads, bad>>
